@@ -9,6 +9,14 @@ SeedCommands == {1, 2, 6, 10, 12}
 Seeds ==
     {[c |-> c, sv |-> ReqMin(c)] : c \in (IF "min" \in SeedKinds THEN SeedCommands ELSE {})}
     \cup {[c |-> c, sv |-> ReqRich(c, F)] : c \in (IF "full" \in SeedKinds THEN SeedCommands ELSE {})}
+    \* lists whose later entries the decoder filters out or ignores must still be well-formed
+    \cup (IF "full" \in SeedKinds
+          THEN {[c |-> 1, sv |-> [McReqMin EXCEPT !.pubKeyCredParams = <<ParamOf(ALG_ES256), ParamOf(ALG_EdDSA), ParamOf(-257), ParamOf(ALG_ES256)>>,
+                                                 !.options = <<AuthOptsFull>>,
+                                                 !.attestationFormatsPreference = <<<<N_packed, N_none, N_tpm, N_packed>>>>]],
+                [c |-> 2, sv |-> [GaReqMin EXCEPT !.allowList = <<<<GDesc(1), GDesc(2), GDesc(3)>>>>,
+                                                 !.attestationFormatsPreference = <<<<N_none, N_packed, N_tpm>>>>]]}
+          ELSE {})
 
 SeedTy(s)   == T_Indexed(CommandTable[s.c].schema)
 SeedTree(s) == ToTree(SeedTy(s), s.sv, F, TRUE)
